@@ -288,6 +288,7 @@ def run_witness_task(task):
         harness.exe = task["exe"]
         harness.built = True
         kind = task["kind"]
+        W.EXCLUDE[0] = task.get("exclude_items")
         t_end = time.time() + task["budget"]
         if kind == "effects":
             for lname in task["lemmas"]:
@@ -317,6 +318,8 @@ def run_witness_task(task):
             try:
                 if kind == "closed-resume":
                     script, info = with_time_limit(min(left, task["timeout"]), W.search, su, U, k, K, "closed", resume=True, timeout_s=int(min(left, task["timeout"])))
+                elif kind == "contract":
+                    script, info = with_time_limit(min(left, task["timeout"]), W.search, su, U, k, K, "contract", early=True, timeout_s=int(min(left, task["timeout"])))
                 else:
                     script, info = with_time_limit(min(left, task["timeout"]), W.search, su, U, k, K, kind, early=True, timeout_s=int(min(left, task["timeout"])))
             except (V.Unsupported, MemoryError, Timeout) as ex:
